@@ -203,7 +203,32 @@ def _split(rec):
     return rec[:-1], np.array(rec[-1], dtype=float)
 
 
-def compare_views(real, ref, pos_tol=POS_TOL, ordered=True):
+def _unordered_terms(k, a, b):
+    """terms of one kind compared as multisets (their order is not part of any property); table-less type ids
+    up to a bijection found by search over the few ids in use"""
+    import collections, itertools
+    key = lambda t: (t[0], t[2], t[1] if not t[1].startswith('#') else '#')
+    norm = lambda t: (t[0], t[2], tuple(coeff_tokens(t[1])[0]) + ('#',) + tuple(coeff_tokens(t[1])[1] or ()) if not t[1].startswith('#') else '#')
+    ca = collections.Counter(norm(t) for t in a); cb = collections.Counter(norm(t) for t in b)
+    if ca != cb:
+        only_a = list((ca - cb).elements())[:3]; only_b = list((cb - ca).elements())[:3]
+        return '%ss differ: only in the result %r, only in the reference %r' % (k, only_a, only_b)
+    ids = sorted({t[1] for t in a if t[1].startswith('#')}); toks = sorted({t[1] for t in b if t[1].startswith('#')})
+    if len(ids) != len(toks):
+        return '%s: %d type ids in use for %d distinct term types of the reference (ids %r)' % (k, len(ids), len(toks), ids)
+    if not ids:
+        return None
+    want = collections.Counter((t[0], t[2], t[1]) for t in b if t[1].startswith('#'))
+    if len(ids) > 7:
+        return None
+    for perm in itertools.permutations(toks):
+        m = dict(zip(ids, perm))
+        if collections.Counter((t[0], t[2], m[t[1]]) for t in a if t[1].startswith('#')) == want:
+            return None
+    return '%s type ids do not keep their meaning: no one-to-one renaming of ids %r onto the reference term types %r reproduces the terms' % (k, ids, toks)
+
+
+def compare_views(real, ref, pos_tol=POS_TOL, ordered=False):
     """None if the resolved views agree, else a short description of the first difference.
     Table-less type ids are compared up to a bijection per kind."""
     ra, rt = real; fa, ft = ref
@@ -222,7 +247,10 @@ def compare_views(real, ref, pos_tol=POS_TOL, ordered=True):
         if len(a) != len(b):
             return '%d %ss, reference %d: %r vs %r' % (len(a), k, len(b), [t[0] for t in a], [t[0] for t in b])
         if not ordered:
-            a = sorted(a, key=lambda t: (t[0], t[2])); b = sorted(b, key=lambda t: (t[0], t[2]))
+            d = _unordered_terms(k, a, b)
+            if d:
+                return d
+            continue
         fwd, bwd = {}, {}
         for j, ((t1, c1, x1), (t2, c2, x2)) in enumerate(zip(a, b)):
             if t1 != t2:
